@@ -308,6 +308,20 @@ def place_ghost_at_anchors(sf, ed, spec, lo, hi, used):
     or before the start of, the statement that contains the (unique) token sequence. Lost anchor => undecided."""
     st, m = sf.st, sf.m
     for key in list(spec.sections):
+        if isinstance(key, tuple) and key[0] in ('atloopstart', 'atloopend'):
+            # ghost text at the very start / end of the body of the loop whose head starts with the tokens (independent of
+            # what the body looks like)
+            texts = plain_texts(key[1])
+            hits = [(kw, bo) for (kw, bo) in find_loops(sf, lo, hi) if [t.text for t in st[kw:kw + len(texts)]] == texts]
+            if len(hits) != 1:
+                raise ExtractError('%s: loop anchor `%s` matches %d loops (anchor lost)' % (spec.path, key[1], len(hits)))
+            bo = hits[0][1]
+            if key[0] == 'atloopstart':
+                ed.ins(st[bo].end, '\n' + spec.sections[key] + '\n')
+            else:
+                ed.ins(st[m[bo]].start, '\n' + spec.sections[key] + '\n')
+            used.add(key)
+            continue
         if not (isinstance(key, tuple) and key[0] in ('after', 'before')):
             continue
         texts = plain_texts(key[1])
@@ -1207,9 +1221,9 @@ def expand_fragment(frag_name, text, out_lines, regions, log, vacuity=False):
                         # `loop N`: the N-th loop in textual order; `loop <<head>>`: the loop whose head starts with these
                         # tokens (survives a reordering of loops)
                         cur_sec = ('loopt', ml2.group(1)) if ml2 else (w[0], int(w[1]))
-                    elif w[0] in ('after', 'before'):
+                    elif w[0] in ('after', 'before', 'atloopstart', 'atloopend'):
                         flush()
-                        mc = re.match(r'^(after|before)\s+<<(.*)>>\s*$', d2)
+                        mc = re.match(r'^(after|before|atloopstart|atloopend)\s+<<(.*)>>\s*$', d2)
                         if not mc:
                             raise ExtractError('%s: bad %s directive (%s)' % (frag_name, w[0], d2))
                         cur_sec = (mc.group(1), mc.group(2))
